@@ -75,10 +75,10 @@ const (
 		"a.Q#tttq()tt,tttttttttttttt;ttt." + // 0x20
 		"@tttttttttttttttttttttttttt...tt" + // 0x40
 		"Btttttttttttttttttttttttttt.P.t." + // 0x60
-		"................................" + // 0x80
-		"................................" + // 0xa0
-		"................................" + // 0xc0
-		"................................v" //  0xe0
+		"tttttttttttttttttttttttttttttttt" + // 0x80
+		"tttttttttttttttttttttttttttttttt" + // 0xa0
+		"tttttttttttttttttttttttttttttttt" + // 0xc0
+		"ttttttttttttttttttttttttttttttttv" //  0xe0
 
 	//   0123456789abcdef0123456789abcdef
 	commentMode = "" +
@@ -97,10 +97,10 @@ const (
 		"T...aa..TTaa.aaaaaaaaaaaaaa.aaa." + // 0x20
 		"aaaaaaaaaaaaaaaaaaaaaaaaaaa...aa" + // 0x40
 		".aaaaaaaaaaaaaaaaaaaaaaaaaa...a." + // 0x60
-		"................................" + // 0x80
-		"................................" + // 0xa0
-		"................................" + // 0xc0
-		"................................t" //  0xe0
+		"aaaaaaaaaaaaaaaaaaaaaaaaaaaaaaaa" + // 0x80
+		"aaaaaaaaaaaaaaaaaaaaaaaaaaaaaaaa" + // 0xa0
+		"aaaaaaaaaaaaaaaaaaaaaaaaaaaaaaaa" + // 0xc0
+		"aaaaaaaaaaaaaaaaaaaaaaaaaaaaaaaat" //  0xe0
 
 	//   0123456789abcdef0123456789abcdef
 	stringMode = "" +
